@@ -433,7 +433,9 @@ def rules(tier):
             # C18-eb: _find_cp memoised under (ip, top_level)
             ('C18.R21', _shared_rule('c10', 'r25_cracker_plumbing')),
             # mutation sweep (third run): omen_levels_count[level] += 2
-            ('C18.R22', r22_level_tally)]
+            ('C18.R22', r22_level_tally),
+            # C18-ha: LN.level written without the trailing lengths nobody trained - the keyspace still counts them (level 10 and up)
+            ('C18.R23', _shared_rule('c11', 'r2_ln_offset'))]
 
 
 META = {
